@@ -567,6 +567,9 @@ func (x *Exec) callFunc(s *State, fn *types.Func, call *ast.CallExpr) []*Term {
 	if fi != nil {
 		ct = x.eng.contracts[fi.Obj]
 	}
+	if ct != nil && x.frames[0].contract != nil && x.frames[0].contract.Unfold[fi.Key] && fi.Decl.Body != nil {
+		ct = nil
+	}
 	if ct != nil && (ct.Opaque || ct.Trusted != "" || x.eng.modular(ct)) {
 		return x.callModular(s, fi, ct, recv, args, call)
 	}
